@@ -66,7 +66,7 @@ def e2e(params):
 def many(params):
     """machine-integer replay: one side with more components than a smaller result dtype can number (> 255, > 65535 is out of the time budget)"""
     bad = []
-    for n_many, n_few in ((300, 2), (257, 0), (300, 300)):
+    for n_many, n_few in ((300, 2), (257, 0), (300, 300), (256, 1), (255, 255), (256, 256)):
         for swap in (False, True):
             a = np.zeros((2 * n_many + 4,), np.uint8)
             a[1:2 * n_many:2] = 1  # n_many single-voxel components
@@ -80,6 +80,19 @@ def many(params):
                     bb = [f"raised {type(e).__name__}: {e}"[:160]]
                 if bb:
                     bad.append({"components": [int(n_many), int(n_few)], "many_side": "reference" if swap else "prediction", "backend": be, "problems": bb[:2]})
+                    break
+    # semantic label values at the edge of a dtype (re-typing must not change a value): 255 / 256 / 257 in 16- and 32-bit inputs
+    for dt in (np.uint16, np.int16, np.int32, np.uint32):
+        for top in (255, 256, 257):
+            a = np.zeros((12,), dt); a[1:3] = top; a[5] = 1
+            b = np.zeros((12,), dt); b[1:2] = 2; b[7:9] = top
+            for be in (None, "cc3d", "scipy"):
+                try:
+                    bb = check_approx(a.copy(), b.copy(), be)
+                except Exception as e:
+                    bb = [f"raised {type(e).__name__}: {e}"[:160]]
+                if bb:
+                    bad.append({"semantic_label": top, "dtype": np.dtype(dt).name, "backend": be, "problems": bb[:2]})
                     break
     return {"violated": bool(bad), "problems": bad[:3]}
 
